@@ -311,6 +311,10 @@ def check_kipping(ctx):
         cd = m.classes[cls]
         ctx.check(R, cd, "%s = Beta(%s, %s)" % (cls, a, b), ga == a and gb == b, "Beta(%s, %s) (%s)" % (ga, gb, how), key=cls)
         ctx.check(R, cd, "%s is a pm.Beta" % cls, ext == "pm.Beta", "external base %s" % ext, key=cls + ":base", nontrivial=False)
+        extra = [x.name for x in cd.body if isinstance(x, ast.FunctionDef) and x.name in ("logp", "logcdf", "icdf", "support_point", "moment", "rng_fn")] + \
+                []
+        ctx.check(R, cd, "%s inherits Beta's log-density and sampler" % cls, not extra,
+                  "%s defines %s: pymc registers class-level hooks by the random-variable op, which these classes share with pm.Beta - every Beta variable in the process gets it" % (cls, extra), key=cls + ":hooks")
 
 
 def check_wire(ctx):
@@ -673,6 +677,8 @@ def run(ctx):
     check_kipping(ctx)
     check_wire(ctx)
     check_offset_names(ctx)
+    from .C05 import check_mutable_defaults
+    check_mutable_defaults(ctx, "C09-STATE")
     check_default(ctx)
     check_sum(ctx)
     ctx.assume("densities and samplers of pymc / pytensor built-ins (Beta, Normal, angle) are as documented; pm.draw draws jointly from the model graph")
